@@ -175,7 +175,7 @@ def run_check(mod, pid, a, t0):
             if line not in known_lines:
                 known_lines.append(line)
             continue
-        sig = getattr(mod, "signature", lambda ff: json.dumps(ff["spec_fail"][0].get("info"), default=str)[:80])(f)
+        sig = getattr(mod, "signature", lambda ff: str((ff["spec_fail"][0].get("info") or {}).get("what")))(f)
         if sig in reported:
             continue
         reported.add(sig)
